@@ -67,6 +67,8 @@ type wenv struct {
 	// retry != 0: sync retry interval of the next loaded wallet (default 10 ms: a failed syncWithChain is retried
 	// in-process at once; an hour = "the process is stopped before any retry")
 	retry time.Duration
+	// attemptBase: fc.syncAttempts when the current connection was announced (see waitSync)
+	attemptBase int64
 }
 
 func newEnv() (*wenv, error) {
@@ -136,6 +138,7 @@ func (e *wenv) beginSync() bool {
 	e.fc.mu.Lock()
 	e.fc.failFired = make(chan struct{}, 1)
 	e.fc.mu.Unlock()
+	e.attemptBase = atomic.LoadInt64(&e.fc.syncAttempts)
 	c := e.fc.conn()
 	e.w.Start()
 	e.w.SynchronizeRPC(e.fc)
@@ -143,30 +146,74 @@ func (e *wenv) beginSync() bool {
 	return c.send(chain.ClientConnected{})
 }
 
+//
+// "stuck" is decided by PROGRESS, not by the clock: a wallet whose syncWithChain fails is retried by waitForSync every
+// syncRetryInterval (10 ms), and every attempt starts with chainClient.BackEnd() — its only call site in package
+// wallet — which the fake backend counts.  The sync is stuck once stuckAttempts attempts were started without one of
+// them getting to the rescan (the wallet state an attempt starts from does not change between failing attempts: a
+// failed rollback transaction leaves the database as it was).  A slow or starved machine only makes the attempts come
+// later.  The time limit is a backstop for a syncWithChain that blocks instead of failing; it is never reached on the
+// unchanged tree (notes/FLAKES.md).
 func (e *wenv) waitSync(timeout time.Duration) string {
 	c := e.fc.conn()
 	e.fc.mu.Lock()
 	reached, fired := e.fc.holdReached, e.fc.failFired
 	e.fc.mu.Unlock()
-	select {
-	case <-c.rescanDone:
-		if c.send(sentinel{}) {
-			return "done"
+	deadline := time.Now().Add(hardLimit(timeout))
+	tick := time.NewTicker(2 * time.Millisecond)
+	defer tick.Stop()
+	for {
+		select {
+		case <-c.rescanDone:
+			if c.send(sentinel{}) {
+				return "done"
+			}
+			return "stuck"
+		case <-reached:
+			return "hold"
+		case <-fired:
+			return "failed"
+		case <-tick.C:
+			if e.stuckByAttempts() {
+				return "stuck"
+			}
+			if time.Now().After(deadline) {
+				noteHardTimeout()
+				return "stuck"
+			}
 		}
-		return "stuck"
-	case <-reached:
-		return "hold"
-	case <-fired:
-		return "failed"
-	case <-time.After(timeout):
-		return "stuck"
 	}
+}
+
+// stuckAttempts: number of syncWithChain attempts (since the connection was announced) after which the sync counts as
+// failing for ever.  The former 1.5 s limit corresponded to > 100 attempts on an idle machine, and to fewer than one on
+// a starved one.
+const stuckAttempts = 25
+
+func (e *wenv) stuckByAttempts() bool {
+	return atomic.LoadInt64(&e.fc.syncAttempts)-e.attemptBase >= stuckAttempts
+}
+
+// generousLimit is the hard limit of every wait for something the unchanged wallet always does.  It can only be
+// reached on a failing run; after a few such time-outs the run is decided and the original short limits come back so
+// that a wallet that blocks in every case does not cost generousLimit per case.
+const generousLimit = 30 * time.Second
+
+var hardTimeouts int32
+
+func noteHardTimeout() { atomic.AddInt32(&hardTimeouts, 1) }
+
+func hardLimit(short time.Duration) time.Duration {
+	if atomic.LoadInt32(&hardTimeouts) >= 3 || short > generousLimit {
+		return short
+	}
+	return generousLimit
 }
 
 // stopTimeout bounds Loader.UnloadWallet (Stop + WaitForShutdown + db.Close).  A shutdown that does not come back
 // (wallet goroutine blocked for ever) must not hang the harness: the database file is copied to a fresh directory and
 // the case goes on from there; the blocked wallet object is abandoned.
-var stopTimeout = 20 * time.Second
+var stopTimeout = 30 * time.Second
 
 // stopHangs counts abandoned shutdowns (reported on stderr; see notes/C15.md "shutdown").
 var stopHangs int32
@@ -182,11 +229,15 @@ func (e *wenv) stop() {
 			_ = l.UnloadWallet()
 			close(done)
 		}()
+		limit := stopTimeout
+		if atomic.LoadInt32(&stopHangs) >= 3 {
+			limit = 10 * time.Second // shutdowns keep hanging: the run is decided, do not pay stopTimeout every time
+		}
 		select {
 		case <-done:
-		case <-time.After(stopTimeout):
+		case <-time.After(limit):
 			n := atomic.AddInt32(&stopHangs, 1)
-			fmt.Fprintf(os.Stderr, "wcsync: wallet shutdown did not return within %s (hang #%d); continuing on a copy of the database\n", stopTimeout, n)
+			fmt.Fprintf(os.Stderr, "wcsync: wallet shutdown did not return within %s (hang #%d); continuing on a copy of the database\n", limit, n)
 			fmt.Fprintf(os.Stderr, "wcsync: ops of the case so far:\n  %s\n", strings.Join(recentOps, "\n  "))
 			if n == 1 {
 				buf := make([]byte, 1<<20)
@@ -216,15 +267,30 @@ func (e *wenv) stop() {
 // rescan within the timeout (it keeps failing and retrying).
 func (e *wenv) reconnect(timeout time.Duration) bool {
 	ch := e.fc.armRescanHold()
+	e.attemptBase = atomic.LoadInt64(&e.fc.syncAttempts)
 	if !e.fc.send(chain.ClientConnected{}) {
 		e.fc.disarmRescanHold()
 		return false
 	}
-	select {
-	case <-ch:
-	case <-time.After(timeout):
-		e.fc.disarmRescanHold()
-		return false
+	// progress-based like waitSync: "never gets to the rescan" = stuckAttempts failed attempts, not elapsed time
+	deadline := time.Now().Add(hardLimit(timeout))
+	tick := time.NewTicker(2 * time.Millisecond)
+	defer tick.Stop()
+wait:
+	for {
+		select {
+		case <-ch:
+			break wait
+		case <-tick.C:
+			hard := time.Now().After(deadline)
+			if hard {
+				noteHardTimeout()
+			}
+			if hard || e.stuckByAttempts() {
+				e.fc.disarmRescanHold()
+				return false
+			}
+		}
 	}
 	return e.fc.send(sentinel{})
 }
@@ -255,7 +321,8 @@ func (e *wenv) importKey(k int, from *fblock, timeout time.Duration) error {
 	}
 	select {
 	case <-ch:
-	case <-time.After(timeout):
+	case <-time.After(hardLimit(timeout)):
+		noteHardTimeout()
 		e.fc.disarmRescanHold()
 		return errors.New("rescan request not seen")
 	}
